@@ -490,7 +490,9 @@ fn threads<W: Write>(out: &mut W, hi: usize, hist: &Value, out_path: &str) {
                 let k = if rng.below(8) == 0 && lens[which] < 400_000 { 330_000u64 } else { [10u64, 64, 600][rng.below(3) as usize] };
                 (lens[which] + k, format!("append{}", k))
             } else if kind < 8 {
-                let n = [0u64, 100, 4000, 4096, 5000, 9000][rng.below(6) as usize];
+                // now and then a growth far larger than the stream buffer (1 MiB in these runs): set_len is ONE
+                // handle operation, readers may see the old or the new length and nothing in between
+                let n = if rng.below(7) == 0 && lens[which] < 400_000 { lens[which] + 2_500_000 } else { [0u64, 100, 4000, 4096, 5000, 9000][rng.below(6) as usize] };
                 (n, format!("set_len{}", n))
             } else if kind < 9 {
                 (lens[which].max(1500), "overwrite_read".to_string())
